@@ -21,6 +21,12 @@
 #include <fcppt/math/matrix/arithmetic.hpp>
 #include <fcppt/math/matrix/comparison.hpp>
 #include <fcppt/math/matrix/identity.hpp>
+#include <fcppt/math/matrix/row.hpp>
+#include <fcppt/math/matrix/static.hpp>
+#include <fcppt/math/dim/static.hpp>
+#include <fcppt/math/vector/fill.hpp>
+#include <fcppt/math/vector/push_back.hpp>
+#include <fcppt/math/vector/static.hpp>
 #include <fcppt/math/matrix/transpose.hpp>
 #include <fcppt/math/matrix/vector.hpp>
 #include <fcppt/math/vector/arithmetic.hpp>
@@ -464,6 +470,62 @@ template <sz R, sz K, sz C> void quat_matrix(std::vector<quat> const &avals, std
 }
 }
 
+// ------------------------------------------------------------------ builders called with lvalue scalars
+// row(a, b), matrix(row(a, b), row(b, a)), vector(a, b), dim(a, b), fill(a), push_back(v, a) with NAMED scalars of a
+// type with real move semantics: the results hold the same values as the plain arrays {a, b, ...}, and the named
+// scalars still hold their values afterwards (a builder that moves out of an lvalue argument leaves "<moved-from>"
+// behind, and the second use of the same scalar then reads it)
+void builders_with_lvalues()
+{
+  namespace fm = fcppt::math::matrix;
+  namespace fv = fcppt::math::vector;
+  namespace fd = fcppt::math::dim;
+  auto unchanged = [](std::string const &sig, term const &a, term const &b) {
+    VRT_CHECK(!a.moved && !b.moved && a.s == "a" && b.s == "b", sig + ":lvalue_scalar_changed", "after the call: a=%s b=%s", show(a).c_str(), show(b).c_str());
+  };
+  if (vrt::begin_text("builders_lvalue<term>", "matrix::row / matrix(row, row) with lvalue scalars"))
+  {
+    vrt::nontrivial(true);
+    g_term = term_counters{};
+    term a("a"), b("b");
+    fm::row_type<term, 2> const r0 = fm::row(a, b);
+    unchanged("matrix::row", a, b);
+    VRT_CHECK(r0.get_unsafe(0).s == "a" && r0.get_unsafe(1).s == "b", "matrix::row:lvalues:wrong", "row(a,b) = (%s,%s)", show(r0.get_unsafe(0)).c_str(), show(r0.get_unsafe(1)).c_str());
+    fm::static_<term, 2, 2> const m(fm::row(a, b), fm::row(b, a));
+    unchanged("matrix(row,row)", a, b);
+    VRT_CHECK(m.m00().s == "a" && m.m01().s == "b" && m.m10().s == "b" && m.m11().s == "a", "matrix(row,row):lvalues:wrong", "[[%s,%s],[%s,%s]]",
+              show(m.m00()).c_str(), show(m.m01()).c_str(), show(m.m10()).c_str(), show(m.m11()).c_str());
+    fm::row_type<term, 3> const r3 = fm::row(a, a, a);
+    unchanged("matrix::row/same_scalar", a, b);
+    VRT_CHECK(r3.get_unsafe(0).s == "a" && r3.get_unsafe(1).s == "a" && r3.get_unsafe(2).s == "a", "matrix::row:same_scalar:wrong", "row(a,a,a) = (%s,%s,%s)",
+              show(r3.get_unsafe(0)).c_str(), show(r3.get_unsafe(1)).c_str(), show(r3.get_unsafe(2)).c_str());
+    VRT_CHECK(g_term.moved_reads == 0, "matrix::row:lvalues:moved_from_read", "%lu reads of moved-from scalars", g_term.moved_reads);
+  }
+  if (vrt::begin_text("builders_lvalue<term>", "vector / dim constructors, fill, push_back with lvalue scalars"))
+  {
+    vrt::nontrivial(true);
+    g_term = term_counters{};
+    term a("a"), b("b");
+    fv::static_<term, 2> const v(a, b);
+    unchanged("vector(a,b)", a, b);
+    VRT_CHECK(v.x().s == "a" && v.y().s == "b", "vector(a,b):lvalues:wrong", "(%s,%s)", show(v.x()).c_str(), show(v.y()).c_str());
+    fv::static_<term, 3> const v3(a, b, a);
+    unchanged("vector(a,b,a)", a, b);
+    VRT_CHECK(v3.x().s == "a" && v3.y().s == "b" && v3.z().s == "a", "vector(a,b,a):lvalues:wrong", "(%s,%s,%s)", show(v3.x()).c_str(), show(v3.y()).c_str(), show(v3.z()).c_str());
+    fd::static_<term, 2> const d(a, b);
+    unchanged("dim(a,b)", a, b);
+    VRT_CHECK(d.w().s == "a" && d.h().s == "b", "dim(a,b):lvalues:wrong", "(%s,%s)", show(d.w()).c_str(), show(d.h()).c_str());
+    auto const f = fv::fill<fv::static_<term, 3>>(a);
+    unchanged("vector::fill", a, b);
+    VRT_CHECK(f.x().s == "a" && f.y().s == "a" && f.z().s == "a", "vector::fill:lvalues:wrong", "(%s,%s,%s)", show(f.x()).c_str(), show(f.y()).c_str(), show(f.z()).c_str());
+    auto const pb = fv::push_back(v, b);
+    unchanged("vector::push_back", a, b);
+    VRT_CHECK(pb.x().s == "a" && pb.y().s == "b" && pb.z().s == "b" && v.x().s == "a" && v.y().s == "b", "vector::push_back:lvalues:wrong", "(%s,%s,%s)",
+              show(pb.x()).c_str(), show(pb.y()).c_str(), show(pb.z()).c_str());
+    VRT_CHECK(g_term.moved_reads == 0, "vector_builders:lvalues:moved_from_read", "%lu reads of moved-from scalars", g_term.moved_reads);
+  }
+}
+
 void register_scalar()
 {
   vrt::shard("scalar/term", [] {
@@ -475,6 +537,7 @@ void register_scalar()
     symbolic_matrix<2, 3, 4>();
     symbolic_matrix<3, 3, 3>();
   });
+  vrt::shard("scalar/term_builders_lvalues", [] { builders_with_lvalues(); });
   vrt::shard("scalar/quat/vector", [] {
     std::vector<quat> const scal{qi, qj, q1k, qmix, q0};
     quat_vd<true, 2>({q0, qi, qj, q1k}, scal);
